@@ -41,11 +41,12 @@ Qed.
 (* first writer wins: a step never changes what the pool holds for a key that is set *)
 Lemma step_pool_stable : forall s a k b, get k (pl s) = Some b -> get k (pl (step s a)) = Some b.
 Proof.
-  intros s a k b H. destruct a as [t k'|t b'|t|t k' f|t]; simpl; auto.
+  intros s a k b H. destruct a as [t k'|t b'|t|t k' f|t|t|t b'|t]; simpl; auto.
   - destruct (note_signed_same (do_set s t b') b') as (E & _). rewrite E. apply do_set_pool_stable. exact H.
   - unfold do_bcast. destruct (getp t (pend s)); exact H.
   - unfold do_prepare. match goal with |- context [note_signed ?x ?y] => destruct (note_signed_same x y) as (E & _); rewrite E end. exact H.
   - unfold do_set_prepared. destruct (getp t (prep s)); [apply do_set_pool_stable|]; exact H.
+  - match goal with |- context [note_signed ?x ?y] => destruct (note_signed_same x y) as (E & _); rewrite E end. exact H.
 Qed.
 
 Lemma run_pool_stable : forall l s k b, get k (pl s) = Some b -> get k (pl (run s l)) = Some b.
@@ -91,15 +92,32 @@ Proof.
     + intros x Hx Lx. simpl in Hx. apply in_app_or in Hx. destruct Hx as [Hx|[Hx|[]]]; [apply L; auto|subst x; eapply P; eauto].
 Qed.
 
+Lemma getp_delp_some : forall t u p h, getp u (delp t p) = Some h -> getp u p = Some h.
+Proof.
+  intros t u p h H. destruct (N.eq_dec u t) as [E|E].
+  - subst u. rewrite getp_delp_same in H. discriminate.
+  - rewrite getp_delp_other in H by exact E. exact H.
+Qed.
+
+Lemma drop_pend_inv : forall s t, inv s -> inv (mkSt (pl s) (delp t (pend s)) (log s) (seen s) (prep s) (signed s)).
+Proof.
+  intros s t (K & P & L). split; [exact K|]. split; [|exact L].
+  intros u h Hu Lh. simpl in Hu. apply getp_delp_some in Hu. eapply P; eauto.
+Qed.
+
 Lemma step_inv : forall s a, inv s -> inv (step s a).
 Proof.
-  intros s a H. destruct a as [t k|t b|t|t k f|t]; simpl.
+  intros s a H. destruct a as [t k|t b|t|t k f|t|t|t b|t]; simpl.
   - eapply inv_ext; [| | |exact H]; reflexivity.
   - destruct (note_signed_same (do_set s t b) b) as (A & B & C). eapply inv_ext; eauto. apply do_set_inv. exact H.
   - apply do_bcast_inv. exact H.
   - unfold do_prepare. match goal with |- context [note_signed ?x ?y] => destruct (note_signed_same x y) as (A & B & C) end.
     eapply inv_ext; eauto.
   - unfold do_set_prepared. destruct (getp t (prep s)); [apply do_set_inv|]; exact H.
+  - eapply inv_ext; [| | |exact H]; reflexivity.
+  - match goal with |- context [note_signed ?x ?y] => destruct (note_signed_same x y) as (A & B & C) end.
+    eapply inv_ext; eauto. apply drop_pend_inv. exact H.
+  - apply drop_pend_inv. exact H.
 Qed.
 
 Lemma inv_init : inv init.
